@@ -672,7 +672,7 @@ func genMarshalRT(ctx *Ctx, emit func(any, string)) {
 // family marshaljunk
 
 type JKInput struct {
-	Recv  *JNode   `json:"recv,omitempty"` // nil: uninitialised receiver
+	Recv  *JNode   `json:"recv,omitempty"`  // nil: uninitialised receiver
 	Mutex bool     `json:"mutex,omitempty"` // initialised receiver with its mutex enabled
 	In    []*JNode `json:"in"`
 }
